@@ -60,11 +60,18 @@ def run(ctx):
     states += st2
     ctx.cov["recorded_random_histories"] = hist
     ctx.level = "model_checking"
+    # header-first synchronisation (AcceptHeader, data arriving later, cached blocks): spec/HeaderSync.tla
+    import c06_headers
+    hdr = c06_headers.stage(ctx)   # violations carry signatures "C06:hdr:..."
+    ctx.cov["header_first"] = hdr
+    states += hdr["states"]
+    transitions += hdr["transitions"]
+    replayed += hdr["replayed"]
     ctx.cov.update({"states": states, "transitions": transitions, "traces_validated_against_impl": replayed,
                     "exhaustive": True, "families": sorted(set(f[0] for f in fams)),
                     "rule": "every delivery order (bounded length) of the ForkA / ForkB block trees; every transition replayed on lib/chain with plain and compressed UTXO records; tip + full UTXO dump compared"})
     ctx.assumptions += ["work differs between blocks only in family Retarget (first retarget at height 2016, difficulty x4 against x1); MorePOW's float arithmetic is exercised only there",
-                        "header-only (not yet downloaded) blocks are not modelled: every delivered block carries its data"]
+                        "header-first histories go through the real ProcessNewHeader / lib/chain; the client's unexported glue (HandleNetBlock, LocalAcceptBlock, retry_cached_blocks) is transcribed in the driver and guarded by a source-text check"]
 
 
 def replay_cmd(ctx, path):
